@@ -223,14 +223,14 @@ def judge(c, i, m):
 
 
 # --------------------------------------------------------------------------- known findings
-# The registered finding lives in /verif/known_findings.json (python3 harness/findings_add.py); nothing is pending.
+# C12-K1 / C13-K1 (arrival-order fallback of _as_args) are status "fixed" (/repo d10af45) in /verif/known_findings.json: their
+# witness is replayed on every run and a return is an ordinary VIOLATION; the matcher below only ever applies to an open entry.
 PENDING_FINDINGS = []
 
 
 def finding_matcher(f, case):
-    """narrow syntactic predicate, the complement of gate_guard (Proofs/ValidateGate.v): ARGS mode, function without
-    **kwargs, no bound self (method call that is looked at), and a keyword or a declared Parameter whose name is no
-    parameter of the function"""
+    """narrow syntactic predicate of the former finding K1: ARGS mode, function without **kwargs, no bound self (method
+    call that is looked at), and a keyword or a declared Parameter whose name is no parameter of the function"""
     if f.get('matcher', {}).get('id') != 'args_mode_name_outside_signature':
         return False
     signames = {sp['n'] for sp in case['sig']['params']}
@@ -444,7 +444,7 @@ def malform(rng, c):
         c['params'].append(p)
     elif k == 5:                                 # no Parameter at all
         c['params'] = []
-    elif k == 6:                                 # surplus keyword, not strict, ARGS (arrival order fallback)
+    elif k == 6:                                 # surplus keyword, not strict, ARGS (former arrival-order fallback, K1)
         c['strict'], c['mode'] = False, 0
         c['kwargs'].insert(rng.randint(0, len(c['kwargs'])), [8, gen_val(rng)])
     elif k == 7 and c['sig']['method']:          # self by keyword is not possible for a bound method: ignore_input instead
